@@ -30,6 +30,7 @@ func init() {
 			{ID: "C16.R5", Min: 3, Desc: "the join is the pointwise maximum: it keeps every entry of both operands at least at its counter, and no store lowers an entry", Fn: c16PointwiseMax},
 			{ID: "C16.R8", Min: 1, Desc: "Equal answers true only for vectors Compare calls equal", Fn: c16EqualExact},
 			{ID: "C16.R9", Min: 4, Desc: "the node ids of a decoded vector own their bytes (C12.R12)", Fn: c12DecodedOwnBytes},
+			{ID: "C16.R10", Min: 2, Desc: "remaining-size guards admit the boundary count: an empty vector at the end of a frame decodes (C12.R8)", Fn: c12Boundary},
 			{ID: "C16.R6", Min: 1, Desc: "the reader stores node ids verbatim", Fn: c16VerbatimKeys},
 			{ID: "C16.R4", Min: 1, Desc: "Increment stays within the reader's counter bound", Fn: c16IncrementCap},
 			{ID: "C16.R7", Min: 2, Desc: "Compare enumerates the entries of both operands", Fn: c16CompareEnumerates},
